@@ -70,7 +70,34 @@ func concGroups(env *core.Env, groups int) []core.Case {
 func init() {
 	register(&core.Check{
 		ID:          "C16",
-		TraceModule: "",
+		TraceModule: "IsolationTrace",
+		Designs: []core.Design{
+			{Name: "isolation-private", Module: "Isolation", Cfg: "Isolation_private.cfg", Workers: 2, XmxMB: 2000, Timeout: 5 * time.Minute,
+				ToCases: func(env *core.Env, emitted []core.Case) []core.Case {
+					var res []core.Case
+					for _, e := range emitted {
+						for rep := 0; rep < env.Pick(2, 10); rep++ {
+							var probs []gen.M
+							for i := 0; i < int(e["k"].(float64)); i++ {
+								nv := 14 + env.Rand.Intn(6)
+								probs = append(probs, gen.M{"n": nv, "clauses": gen.RandKSAT(env.Rand, nv, int(4.4*float64(nv)), 3)})
+							}
+							res = append(res, gen.M{"drv": "iso", "k": e["k"], "c": e["c"], "sched": e["sched"], "problems": probs, "ev": []gen.M{}})
+						}
+					}
+					return res
+				}},
+			{Name: "isolation-shared", Module: "Isolation", Cfg: "Isolation_shared.cfg", Workers: 1, XmxMB: 2000, Timeout: 5 * time.Minute, ExpectViolation: "NoInterference"},
+		},
+		Cover: func(t core.Case, cov map[string]int) bool {
+			for _, e := range evs(t) {
+				cov["iso."+s(e, "op")]++
+				if s(e, "op") == "iso" {
+					return true
+				}
+			}
+			return false
+		},
 		NeedRace:    true,
 		Rule:        "cases: groups of 2..6 data-independent uses of the packages solver (CNF with many conflicts, counting, optimisation with a result channel, with / without cutting planes), maxsat (WCNF, forwarding goroutine), explain (MUS extraction, unsat subset) and bf, each group run concurrently (one goroutine per use) in a driver built with -race from /repo; every reply is validated by the property's own oracle (same trace specifications as C01, C03, C04, C05, C07, C11), a race report or a crash is a violation; distinct = hash of the group; non-trivial = the group has at least two solver uses that reach conflict analysis",
 		Assumptions: []string{"race freedom of memory the specification cannot observe is decided by the Go race detector acting as recorder of the happens-before relation (a report is a real-code behaviour; absence of a report covers only the schedules that occurred)"},
@@ -169,7 +196,7 @@ func init() {
 			env.Logf("%d concurrent groups (%d uses) run under the race detector, %d replies validated, %d violations", len(traces), len(flat), len(flat)-len(rejected), len(res.Violations))
 			return nil
 		},
-		Require: []string{"conc.groups", "conc.sub.api", "conc.sub.maxsat", "conc.sub.explain", "conc.sub.bf"},
+		Require: []string{"iso.iso", "conc.groups", "conc.sub.api", "conc.sub.maxsat", "conc.sub.explain", "conc.sub.bf"},
 	})
 }
 
